@@ -213,6 +213,24 @@ enum Rd {
     SkipError,
     /// `Header::read`, then (as the server does) `SerialQueryPayload::read` for type 1 with length 12.
     SerialBody,
+    /// As `Dispatch`, with the header obtained by another public route than `Header::read`.
+    DispatchVia(Ty, Hr),
+    /// As `EodDispatch`, header by another route.
+    EodVia(Hr),
+    /// As `SkipError`, header by another route.
+    SkipVia(Hr),
+}
+
+/// The public routes to a `Header` value other than `Header::read`: the
+/// `*::read_payload(header, ..)` / `Error::skip_payload(header, ..)` functions take any header.
+#[derive(Clone, Copy, Debug, PartialEq, Eq, PartialOrd, Ord)]
+enum Hr {
+    /// `Header::default()` filled through `as_mut()` (the way the library's own server and client collect headers).
+    AsMut,
+    /// `Header::new(version, type, session, length)` from the eight octets.
+    New,
+    /// The header `SerialNotify::try_read` hands back as `Ok(Err(header))` when it meets an Error PDU (SkipVia only).
+    TryAlt,
 }
 
 impl Rd {
@@ -222,6 +240,9 @@ impl Rd {
             Rd::Dispatch(t) => format!("Header::read+{t:?}::read_payload"), Rd::PayloadRead => "Payload::read".into(),
             Rd::EodDispatch => "Header::read+EndOfData::read_payload".into(), Rd::SkipError => "Header::read+Error::skip_payload".into(),
             Rd::SerialBody => "Header::read+SerialQueryPayload::read".into(),
+            Rd::DispatchVia(t, h) => format!("Header[{h:?}]+{t:?}::read_payload"),
+            Rd::EodVia(h) => format!("Header[{h:?}]+EndOfData::read_payload"),
+            Rd::SkipVia(h) => format!("Header[{h:?}]+Error::skip_payload"),
         }
     }
 }
@@ -309,6 +330,34 @@ async fn run_reader(rd: Rd, sock: &mut ScriptedSock) -> io::Result<Got> {
             if h.pdu() != 1 || h.length() != 12 { return Ok(Got::NotDispatched(h)) }
             pdu::SerialQueryPayload::read(sock).await.map(|p| Got::SerialBody(h, p))
         }
+        Rd::DispatchVia(t, hr) => {
+            let h = match header_via(hr, sock).await? { Ok(h) => h, Err(got) => return Ok(got) };
+            if h.pdu() != t.code() { return Ok(Got::NotDispatched(h)) }
+            fixed_payload!(t, h, sock)
+        }
+        Rd::EodVia(hr) => {
+            let h = match header_via(hr, sock).await? { Ok(h) => h, Err(got) => return Ok(got) };
+            if h.pdu() != 7 { return Ok(Got::NotDispatched(h)) }
+            pdu::EndOfData::read_payload(h, sock).await.map(Got::Eod)
+        }
+        Rd::SkipVia(hr) => {
+            let h = match header_via(hr, sock).await? { Ok(h) => h, Err(got) => return Ok(got) };
+            if h.pdu() != 10 { return Ok(Got::NotDispatched(h)) }
+            pdu::Error::skip_payload(h, sock).await.map(|()| Got::Skipped(h))
+        }
+    }
+}
+
+/// A header by one of the routes of `Hr`; `Err(got)`: the route itself produced a complete result.
+async fn header_via(hr: Hr, sock: &mut ScriptedSock) -> io::Result<Result<pdu::Header, Got>> {
+    use tokio::io::AsyncReadExt;
+    match hr {
+        Hr::AsMut => { let mut h = pdu::Header::default(); sock.read_exact(h.as_mut()).await?; Ok(Ok(h)) }
+        Hr::New => {
+            let mut b = [0u8; 8]; sock.read_exact(&mut b).await?;
+            Ok(Ok(pdu::Header::new(b[0], b[1], u16::from_be_bytes([b[2], b[3]]), u32::from_be_bytes([b[4], b[5], b[6], b[7]]))))
+        }
+        Hr::TryAlt => Ok(match pdu::SerialNotify::try_read(sock).await? { Ok(p) => Err(Got::Pdu(Built::SerialNotify(p))), Err(h) => Ok(h) }),
     }
 }
 
@@ -320,7 +369,11 @@ fn readers_for(t: Ty) -> Vec<Rd> {
     if matches!(t, Ty::V4 | Ty::V6 | Ty::RouterKey | Ty::Aspa | Ty::EodV0 | Ty::EodV1) { v.push(Rd::PayloadRead) }
     if matches!(t, Ty::EodV0 | Ty::EodV1) { v.push(Rd::EodDispatch) }
     if t == Ty::SerialQuery { v.push(Rd::SerialBody) }
-    if t == Ty::Error { v = vec![Rd::SkipError] }
+    for hr in [Hr::AsMut, Hr::New] {
+        v.push(Rd::DispatchVia(t, hr));
+        if matches!(t, Ty::EodV0 | Ty::EodV1) { v.push(Rd::EodVia(hr)) }
+    }
+    if t == Ty::Error { v = vec![Rd::SkipError, Rd::SkipVia(Hr::AsMut), Rd::SkipVia(Hr::New), Rd::SkipVia(Hr::TryAlt)] }
     v
 }
 
@@ -329,6 +382,12 @@ fn all_readers() -> Vec<Rd> {
     for t in Ty::FIXED { v.push(Rd::Read(t)); v.push(Rd::TryRead(t)); v.push(Rd::Dispatch(t)) }
     for t in [Ty::RouterKey, Ty::Aspa] { v.push(Rd::Read(t)); v.push(Rd::Dispatch(t)) }
     v.extend([Rd::PayloadRead, Rd::EodDispatch, Rd::SkipError, Rd::SerialBody]);
+    for hr in [Hr::AsMut, Hr::New] {
+        for t in Ty::FIXED { v.push(Rd::DispatchVia(t, hr)) }
+        for t in [Ty::RouterKey, Ty::Aspa] { v.push(Rd::DispatchVia(t, hr)) }
+        v.extend([Rd::EodVia(hr), Rd::SkipVia(hr)]);
+    }
+    v.push(Rd::SkipVia(Hr::TryAlt));
     v
 }
 
@@ -378,6 +437,11 @@ fn grammar(rd: Rd, s: &[u8]) -> Exp {
         Rd::EodDispatch => if code != 7 { Exp::NotDispatched } else { body(length_ok(7, v, len)) },
         Rd::SkipError => if code != 10 { Exp::NotDispatched } else { body(length_ok(10, v, len)) },
         Rd::SerialBody => if code != 1 || len != 12 { Exp::NotDispatched } else { body(true) },
+        // the header's route does not change what the wire grammar demands of the read as a whole
+        Rd::DispatchVia(t, _) => grammar(Rd::Dispatch(t), s),
+        Rd::EodVia(_) => grammar(Rd::EodDispatch, s),
+        Rd::SkipVia(Hr::TryAlt) => if code == 10 { body(length_ok(10, v, len)) } else { match grammar(Rd::TryRead(Ty::SerialNotify), s) { Exp::TryAlt => unreachable!(), e => e } },
+        Rd::SkipVia(_) => grammar(Rd::SkipError, s),
     }
 }
 
